@@ -4,6 +4,7 @@ package props
 import (
 	_ "verif/htlab/internal/props/c01"
 	_ "verif/htlab/internal/props/c02"
+	_ "verif/htlab/internal/props/c03"
 	_ "verif/htlab/internal/props/c04"
 	_ "verif/htlab/internal/props/c05"
 	_ "verif/htlab/internal/props/c06"
